@@ -22,6 +22,7 @@ type EvalCtx struct {
 	loopEntry *MemState
 	at        ssa.Instruction // program point for local-name resolution (nil = function end / header)
 	copyFromOld bool
+	inLoopEntry bool
 	wit         []string // candidate witnesses for Int-bound existentials (loop indices)
 	witDepth    int
 	frameBase   string // allocation watermark for frame formulas (default: allocbase = function entry)
@@ -174,6 +175,11 @@ func (fr *Frame) localByName(n string, ec *EvalCtx) (Val, bool) {
 		}
 		for _, in := range ec.loop.head.Instrs {
 			if phi, ok := in.(*ssa.Phi); ok && phi.Comment == n {
+				if ec.inLoopEntry {
+					if v, ok := ec.loop.entryPhi[phi]; ok {
+						return v, true
+					}
+				}
 				if v, ok := fr.vals[phi]; ok {
 					return v, true
 				}
@@ -753,7 +759,9 @@ func (ec *EvalCtx) evalCall(x *ECall) Val {
 		}
 		saved := ec.mem
 		ec.mem = ec.loopEntry
+		ec.inLoopEntry = true
 		v := ec.eval(x.Args[0])
+		ec.inLoopEntry = false
 		ec.mem = saved
 		return v
 	case "len":
@@ -1227,6 +1235,9 @@ func (ec *EvalCtx) objid(v Val) Val {
 		return Val{T: v.T, S: SInt}
 	case v.S == SInt:
 		return v
+	case v.S == SIface && isAdapterIface(v.G):
+		// adapter interfaces (they have a ClientObject method) are never implemented by *unstructured.Unstructured
+		return Val{T: fmt.Sprintf("(ival %s)", v.T), S: SInt}
 	case v.S == SIface:
 		tag := ex.D.tagOf(types.NewPointer(ut))
 		return Val{T: fmt.Sprintf("(ite (= (itag %s) %d) %s (ival %s))", v.T, tag, mapAt(fmt.Sprintf("(ival %s)", v.T)), v.T), S: SInt}
@@ -1269,4 +1280,20 @@ func (ex *Exec) umapAxiom(arr string) {
 	ex.needUmap()
 	fa := ex.D.fieldAddr(ut, 0, "p")
 	ex.emit("(assert (forall ((p Int)) (! (or (= (select %s %s) 0) (= (select %s %s) (umap p))) :pattern ((select %s %s)))))", arr, fa, arr, fa, arr, fa)
+}
+
+func isAdapterIface(t types.Type) bool {
+	if t == nil {
+		return false
+	}
+	it, ok := t.Underlying().(*types.Interface)
+	if !ok {
+		return false
+	}
+	for i := 0; i < it.NumMethods(); i++ {
+		if it.Method(i).Name() == "ClientObject" {
+			return true
+		}
+	}
+	return false
 }
